@@ -48,6 +48,7 @@ var strAxioms = []strAxiom{
 	{"ssub-nil", []string{"ssub"}, `(forall ((s Str) (a Int)) (! (= (ssub s a a) sempty) :pattern ((ssub s a a))))`},
 	{"ssub-cat", []string{"ssub", "scat"}, `(forall ((s Str) (a Int) (b Int) (c Int)) (! (=> (and (<= 0 a) (<= a b) (<= b c) (<= c (slen s))) (= (scat (ssub s a b) (ssub s b c)) (ssub s a c))) :pattern ((scat (ssub s a b) (ssub s b c)))))`},
 	{"ssub-ssub", []string{"ssub"}, `(forall ((s Str) (a Int) (b Int) (c Int) (d Int)) (! (=> (and (<= 0 a) (<= a b) (<= b (slen s)) (<= 0 c) (<= c d) (<= d (- b a))) (= (ssub (ssub s a b) c d) (ssub s (+ a c) (+ a d)))) :pattern ((ssub (ssub s a b) c d))))`},
+	{"ssub-snoc", []string{"ssub"}, `(forall ((s Str) (a Int) (i Int)) (! (=> (and (<= 0 a) (<= a i) (< i (slen s))) (= (scat (ssub s a i) (schr (sat s i))) (ssub s a (+ i 1)))) :pattern ((scat (ssub s a i) (schr (sat s i))))))`},
 	{"ssub-of-cat-l", []string{"ssub", "scat"}, `(forall ((a Str) (b Str)) (! (and (= (ssub (scat a b) 0 (slen a)) a) (= (ssub (scat a b) (slen a) (+ (slen a) (slen b))) b)) :pattern ((scat a b))))`},
 	{"schr", []string{"schr"}, `(forall ((c Int)) (! (and (= (slen (schr c)) 1) (=> (and (<= 0 c) (< c 256)) (= (sat (schr c) 0) c))) :pattern ((schr c))))`},
 	{"schr-ext", []string{"schr"}, `(forall ((s Str)) (! (=> (= (slen s) 1) (= s (schr (sat s 0)))) :pattern ((slen s))))`},
